@@ -90,6 +90,23 @@ Print Assumptions C07_all.
 Print Assumptions C07_handle_len.
 Print Assumptions C07_index_tag_values.
 Print Assumptions C07_index_timestamps.
+(* the set-valued getters get_field_keys / get_tag_keys (a set of strings filled by `rst.add(key)` inside a loop - a nested one for the tag map -
+   whenever the positions of the measurement and of the bucket intersect), compared after sorting.  tne: no tag key with an empty inner dict - an
+   invariant of every compiled method (tne_init / _reset / _insert_one / _build / _remove / _update in proofs/IndexGenP.v) *)
+Theorem C07_source_index_field_keys_is_the_model : forall g m, sort_dedup (IndexGen.gen_get_field_keys g m) = ix_get_field_keys (abs g) m.
+Proof. exact gen_get_field_keys_eq. Qed.
+Theorem C07_source_index_tag_keys_is_the_model : forall g m, tne (_tags g) -> sort_dedup (IndexGen.gen_get_tag_keys g m) = ix_get_tag_keys (abs g) m.
+Proof. exact gen_get_tag_keys_eq. Qed.
+Theorem C07_source_index_field_keys_exact : forall g pts m, Rep (abs g) pts ->
+  sort_dedup (IndexGen.gen_get_field_keys g m) = sort_dedup (flat_map (fun p => map fst (p_fields p)) (in_meas m pts)).
+Proof. exact source_field_keys_exact. Qed.
+Theorem C07_source_index_tag_keys_exact : forall g pts m, tne (_tags g) -> Rep (abs g) pts ->
+  sort_dedup (IndexGen.gen_get_tag_keys g m) = sort_dedup (flat_map (fun p => map fst (p_tags p)) (in_meas m pts)).
+Proof. exact source_tag_keys_exact. Qed.
+Theorem C07_source_index_no_empty_tag_key : forall g pts p r u, gwf g -> tne (_tags g) ->
+  tne (_tags (IndexGen.gen_build g pts)) /\ tne (_tags (IndexGen.gen_insert g [p])) /\ tne (_tags (IndexGen.gen_update (IndexGen.gen_remove g r) u)) /\ tne (_tags (IndexGen.gen__reset g)).
+Proof. exact source_tne. Qed.
+
 Print Assumptions C07_source_index_len_is_the_model.
 Print Assumptions C07_source_index_valid_is_the_model.
 Print Assumptions C07_source_index_measurements_is_the_model.
@@ -99,3 +116,8 @@ Print Assumptions C07_source_index_len_exact.
 Print Assumptions C07_source_index_measurements_exact.
 Print Assumptions C07_source_index_timestamps_exact.
 Print Assumptions C07_source_index_field_values_exact.
+Print Assumptions C07_source_index_field_keys_is_the_model.
+Print Assumptions C07_source_index_tag_keys_is_the_model.
+Print Assumptions C07_source_index_field_keys_exact.
+Print Assumptions C07_source_index_tag_keys_exact.
+Print Assumptions C07_source_index_no_empty_tag_key.
